@@ -466,6 +466,10 @@ def main(argv):
     elif vacuous:
         rc = 2
         out_lines.append('UNDECIDED property=%s vacuous contracts: %s' % (prop, ', '.join(vacuous)))
+    if wit and wit.get('error'):
+        print('WARNING property=%s witness layer did not run: %s' % (prop, str(wit.get('error'))[:300]))
+        if wit.get('stderr'):
+            print('  ' + wit['stderr'][:1500].replace('\n', '\n  '))
     for l in known_lines:
         print(l)
     for l in out_lines:
